@@ -10,6 +10,11 @@ from symx import core
 class _Switch(object):
     symbolic = False
     iterations = 0
+    # "site":   every iteration of every set picks a fresh, independent permutation
+    # "global": one total order over all elements, built lazily and shared by every set iteration of the path
+    #           (the hash-order model: N! schedules for N elements however many iteration sites there are)
+    mode = "site"
+    before = None     # global mode: set of (a, b) pairs meaning a precedes b
 
 
 SWITCH = _Switch()
@@ -23,11 +28,42 @@ def _order(items, what):
             yield x
         return
     SWITCH.iterations += 1
+    if SWITCH.mode == "global":
+        before = SWITCH.before
+        while items:
+            # candidates: elements not preceded (in the order decided so far) by another remaining element
+            cand = [x for x in items if not any((id(y), id(x)) in before for y in items if y is not x)]
+            x = cand[en.choice("gorder", len(cand))] if len(cand) > 1 else cand[0]
+            for y in items:
+                if y is not x:
+                    _add_before(before, x, y, items)
+            items.remove(x)
+            yield x
+        return
     k = 0
     while items:
         i = en.choice("%s.%d" % (what, k), len(items)) if len(items) > 1 else 0
         yield items.pop(i)
         k += 1
+
+
+def _add_before(before, x, y, universe):
+    """record x < y and close transitively over the pairs known so far"""
+    if (id(x), id(y)) in before:
+        return
+    new = [(id(x), id(y))]
+    pairs = list(before)
+    for (a, b) in pairs:
+        if b == id(x):
+            new.append((a, id(y)))
+        if a == id(y):
+            new.append((id(x), b))
+    for (a, b) in pairs:
+        if b == id(x):
+            for (c, d) in pairs:
+                if c == id(y):
+                    new.append((a, d))
+    before.update(new)
 
 
 def _base_order(s):
@@ -120,10 +156,16 @@ def sym_iter(x):
 class symbolic_order(object):
     """with symbolic_order(): ... -- OSet iteration is symbolic only inside this block"""
 
+    def __init__(self, mode="site", before=None):
+        self.mode = mode
+        self.before = before if before is not None else set()
+
     def __enter__(self):
-        self.old = SWITCH.symbolic
+        self.old = (SWITCH.symbolic, SWITCH.mode, SWITCH.before)
         SWITCH.symbolic = True
+        SWITCH.mode = self.mode
+        SWITCH.before = self.before
 
     def __exit__(self, *a):
-        SWITCH.symbolic = self.old
+        SWITCH.symbolic, SWITCH.mode, SWITCH.before = self.old
         return False
